@@ -51,8 +51,20 @@ fn sample_docs() -> Vec<(String, DocD)> {
         ("std", 80, 25, Chars::Printable, Colors::Dos, true),
         ("runs", 80, 12, Chars::Small, Colors::Small, false),
         ("full", 40, 8, Chars::FullNoNul, Colors::Ice, true),
+        // ice-mode documents of width 80: the only shape the ADF writer accepts (and IDF needs ice mode)
+        ("ice80", 80, 9, Chars::Printable, Colors::Ice, true),
+        ("ice80tall", 80, 30, Chars::FullNoNul, Colors::Ice, false),
+        // PETSCII / ATASCII buffers: the seq and ata writers refuse any other buffer type
+        ("petscii", 40, 12, Chars::Printable, Colors::Dos, false),
+        ("atascii", 40, 12, Chars::Ascii7, Colors::Dos, false),
     ] {
         let mut d = DocD::single(w, h);
+        if name == "petscii" {
+            d.buffer_type = 2;
+        }
+        if name == "atascii" {
+            d.buffer_type = 3;
+        }
         d.ice = if colors == Colors::Ice { 2 } else { 1 };
         doc::fill_cells(&mut rng, &mut d.layers[0], chars, colors, 0, 1, 85);
         if sauce {
@@ -98,6 +110,24 @@ fn sample_docs() -> Vec<(String, DocD)> {
     out
 }
 
+/// diagnostic: which (document, format) pairs the writers refuse, and why
+pub fn corpus_refusals() -> Vec<String> {
+    let mut out = Vec::new();
+    for (name, d) in sample_docs() {
+        let buf = doc::build(&d);
+        for ext in BUFFER_EXTS {
+            let r = std::panic::catch_unwind(std::panic::AssertUnwindSafe(|| buf.to_bytes(ext, &save_opts(false, true))));
+            match r {
+                Ok(Ok(b)) if b.len() > 200_000 => out.push(format!("{name}.{ext}: too large ({})", b.len())),
+                Ok(Ok(_)) => {}
+                Ok(Err(e)) => out.push(format!("{name}.{ext}: refused: {e}")),
+                Err(_) => out.push(format!("{name}.{ext}: writer panicked")),
+            }
+        }
+    }
+    out
+}
+
 pub fn build_corpus() -> Vec<Seed> {
     let mut seeds = Vec::new();
     for (name, d) in sample_docs() {
@@ -131,6 +161,19 @@ pub fn build_corpus() -> Vec<Seed> {
         ext: "ans".into(),
         name: "features.ans".into(),
         bytes: b"\x1b[2J\x1b[1;1H\x1b[1;31mHello\x1b[0m\r\n\x1bPq#1;2;100;0;0#1~~~~-~~~~\x1b\\\x1bP1;0;0!zmacro\x1b\\\x1b[1*z\x1b]8;;http://x\x1b\\link\x1b]8;;\x1b\\\x1b[38;5;200mX\x1b[1;24;12;200tY\r\n".to_vec(),
+    });
+    // the PETSCII (.seq) writer is unimplemented in the engine ("not implemented!"), so this seed is hand-made:
+    // colour codes, reverse on/off, cursor keys, clear/home, shifted and unshifted ranges, every byte once
+    seeds.push(Seed {
+        api: "buf".into(),
+        ext: "seq".into(),
+        name: "handmade.seq".into(),
+        bytes: {
+            let mut d = b"\x93\x05HELLO \x1c\x12RED\x92 \x9f\x0ecyan\x8e\r\x11\x11\x1d\x1d\x9eYEL\x9d\x9d\x91\x13\x0d".to_vec();
+            d.extend(0u8..=255);
+            d.extend((0u8..=255).rev());
+            d
+        },
     });
     // fonts
     for (name, data) in [("cp437.psf", icy_engine::CP437), ("cp866.psf", icy_engine::CP866)] {
